@@ -163,6 +163,14 @@ func (c *cursorManager) GetCursor(ctx context.Context, streamName, cursorID stri
 	if leader, _ := partition.GetLeader(); leader != c.config.Clustering.ServerID {
 		return 0, status.New(codes.FailedPrecondition, "Server not cursor partition leader")
 	}
+	// The metadata can name this server as leader before the partition has
+	// started to lead (the server is starting up or replaying its Raft log).
+	// Until then the partition's log reports the high watermark of its last
+	// checkpoint, which can lie below cursors that were stored and
+	// acknowledged, and the answer would be cached.
+	if !partition.IsPaused() && !partition.IsLeader() {
+		return 0, status.New(codes.FailedPrecondition, "Server is not leading the cursor partition yet")
+	}
 
 	if !c.disableCache {
 		c.mu.RLock()
